@@ -249,6 +249,17 @@ def _from_resolve(fn, arg):
 
 
 # --------------------------------------------------------------------------- C14
+@register("C13")
+def c13_cache_is_not_a_side_door(repo_root, tier):
+    """A caching loader consults its cache before the name reaches resolve_path(): the cache is keyed by the name exactly as
+    given (every caching loader takes cache_key/load/_check_cache from the mixin, whose key is the unmodified name, prefixed by the
+    namespace), so a name with `..` or an absolute name can only hit an entry that was stored under that very name - which
+    resolve_path() rejected when it was loaded."""
+    r = c14_sites(repo_root, tier)
+    obs = [o for o in r["obligations"] if "/site.from-mixin" in o["oid"] or "/site.key-and-name" in o["oid"]]
+    return {"obligations": obs, "samples": [], "trusted": [], "functions": [], "assumptions": []}
+
+
 @register("C14")
 def c14_sites(repo_root, tier):
     repo = Repo(repo_root)
@@ -317,6 +328,27 @@ def _with_context_exprs(fn):
             for it in n.items:
                 out.add(id(it.context_expr))
     return out
+
+
+@register("C07")
+def c07_no_parent_reads(repo_root, tier):
+    """An isolated context keeps a reference to the context it was copied from (`parent`), for diagnostics. Nothing reads it: a
+    filter or tag that followed it would let a partial or macro body see the caller's local variables."""
+    repo = Repo(repo_root)
+    obs = []
+    bad = []
+    for m, qual, cls, fn, parent in _all_functions(repo):
+        for n in own_nodes(fn):
+            if isinstance(n, ast.Attribute) and n.attr == "parent" and isinstance(n.ctx, ast.Load):
+                recv = ast.unparse(n.value)
+                is_ctx = recv in ("context", "ctx", "self.context", "static_context", "macro_context") or recv.endswith("_context") \
+                    or (recv == "self" and cls is not None and (cls if isinstance(cls, str) else cls.name) == "RenderContext")
+                if is_ctx:
+                    bad.append(f"{m.name}:{qual} line {n.lineno}: {ast.unparse(n)}")
+    _ob(obs, "liquid2/site.context-parent-never-read", not bad,
+        "no function reads the `parent` of a render context" if not bad
+        else f"{bad[0]}: the calling context is reached from an isolated one - names bound by the caller become visible to the partial / macro body")
+    return {"obligations": obs, "samples": [], "trusted": [], "functions": [], "assumptions": []}
 
 
 @register("C07")
@@ -1079,6 +1111,47 @@ def _assigns(fn, name):
     return out
 
 
+def _count_steers(repo_root):
+    """How many characters a block wrote (which trimming and blank suppression change) never decides what is rendered next: in
+    the render methods of every node no condition mentions a variable that holds the return value of a render()/write() call."""
+    from .sites_c11 import node_classes
+    repo = Repo(repo_root)
+    obs = []
+    n = 0
+    for m, c in node_classes(repo, "Node"):
+        for fn in [st for st in c.body if isinstance(st, (ast.FunctionDef, ast.AsyncFunctionDef)) and st.name in ("render_to_output", "render_to_output_async")]:
+            counts = set()
+            for x in own_nodes(fn):
+                tgt = val = None
+                if isinstance(x, ast.Assign) and len(x.targets) == 1:
+                    tgt, val = x.targets[0], x.value
+                elif isinstance(x, ast.AugAssign):
+                    tgt, val = x.target, x.value
+                if isinstance(tgt, ast.Name) and val is not None and any(
+                        isinstance(cc, ast.Call) and isinstance(cc.func, ast.Attribute) and (cc.func.attr.startswith("render") or cc.func.attr == "write") for cc in ast.walk(val)):
+                    counts.add(tgt.id)
+            if not counts:
+                continue
+            n += 1
+            bad = [f"`{ast.unparse(g.test)}` (line {g.lineno})" for g in own_nodes(fn) if isinstance(g, (ast.If, ast.While, ast.IfExp))
+                   and any(isinstance(y, ast.Name) and y.id in counts for y in ast.walk(g.test))]
+            _ob(obs, f"{m.name}:{c.name}.{fn.name}/site.output-size-steers-nothing", not bad,
+                f"the character counts {sorted(counts)} are only accumulated and returned" if not bad
+                else f"the condition {bad[0]} depends on how many characters a block wrote: a block trimmed or suppressed to nothing changes which branch runs")
+    _ob(obs, "liquid2/site.render-counts.count", n >= 10, f"{n} render methods that accumulate character counts")
+    return obs
+
+
+@register("C18")
+def c18_count_steers(repo_root, tier):
+    return {"obligations": _count_steers(repo_root), "samples": [], "trusted": [], "functions": [], "assumptions": []}
+
+
+@register("C01")
+def c01_count_steers(repo_root, tier):
+    return {"obligations": _count_steers(repo_root), "samples": [], "trusted": [], "functions": [], "assumptions": []}
+
+
 @register("C18")
 def c18_block_trim(repo_root, tier):
     """The text that starts a block is trimmed by the marker of the tag that opens *that* block. parse_block() records the marker
@@ -1139,9 +1212,13 @@ def c18_marker_classes(repo_root, tier):
             for mt in _re.finditer(r"\[((?:\\.|[^\]\\])+)\]", c.value):
                 cls_ = mt.group(1)
                 chars = set(_re.sub(r"\\(.)", r"\1", cls_))
+                # an unescaped `-` between two members is a range (`[+-~]` is every character from + to ~), not the marker `-`
+                is_range = bool(_re.search(r"(?<!\\)(?<!^)-(?!$)", cls_)) and not cls_.startswith("\\-")
+                if is_range and chars <= {"-", "+", "~"}:
+                    chars = {"<range>"} | chars
                 before, after = c.value[max(0, mt.start() - 24):mt.start()], c.value[mt.end():mt.end() + 12]
                 at_delim = any(d in before for d in ("{%", "{{", "#+)")) or any(d in after for d in ("%\\}", "\\}\\}", "(?P=HASHES)"))
-                if chars and chars <= {"-", "+", "~"} and ("~" in chars or at_delim):
+                if chars and chars <= {"-", "+", "~", "<range>"} and ("~" in chars or at_delim):
                     n += 1
                     if chars != {"-", "+", "~"}:
                         bad.append(f"line {c.lineno}: [{cls_}] in {c.value[:40]!r}")
@@ -2230,6 +2307,35 @@ def c06_sites(repo_root, tier):
                     f"{ast.unparse(c.func)}(.., carry_loop_iterations=True)" if ok
                     else f"{ast.unparse(c.func)}(..) with carry_loop_iterations={ast.unparse(v) if v is not None else 'absent (False)'}: loops in the copied context are counted without the loops (or the carry) around the copy")
     _ob(obs, "liquid2/site.context-copies.count", n_copies >= 6, f"{n_copies} context copies in tag code")
+    # the iterations of a per-item loop are registered on the context the items are rendered with: `with X.loop_iterations(n)` /
+    # `with X.loop(..)` around `render*(X, ..)` - registered on another context (the caller's, when the partial renders in a
+    # copy) they multiply nothing inside the partial
+    n_acc = 0
+    for m, qual, cls, fn, parent in _all_functions(repo):
+        if ".tags." not in m.name:
+            continue
+        for w in own_nodes(fn):
+            if not isinstance(w, (ast.With, ast.AsyncWith)):
+                continue
+            for item in w.items:
+                ce = item.context_expr
+                if not (isinstance(ce, ast.Call) and isinstance(ce.func, ast.Attribute) and ce.func.attr in ("loop", "loop_iterations")):
+                    continue
+                recv = ast.unparse(ce.func.value)
+                used = []
+                for st in w.body:
+                    for c in ast.walk(st):
+                        if isinstance(c, ast.Call) and isinstance(c.func, ast.Attribute) and c.func.attr.startswith("render"):
+                            ctx_args = [ast.unparse(a) for a in list(c.args)[:1]] + [ast.unparse(k.value) for k in c.keywords if k.arg == "context"]
+                            used += [a for a in ctx_args if a in ("context", "ctx") or a.endswith("_context")]
+                if not used:
+                    continue
+                n_acc += 1
+                okr = all(u == recv for u in used)
+                _ob(obs, f"{m.name}:{qual}/site.iterations-registered-on-rendering-context@{_ordinal(fn, ce)}", okr,
+                    f"`with {recv}.{ce.func.attr}(..)` around renders with `{recv}`" if okr
+                    else f"`with {recv}.{ce.func.attr}(..)` but the items are rendered with `{[u for u in used if u != recv][0]}`: loops inside are not multiplied by this loop")
+    _ob(obs, "liquid2/site.accounted-renders.count", n_acc >= 8, f"{n_acc} per-item loops that render with an explicit context")
     _ob(obs, "liquid2/site.data-loops.count", n_loops >= 8, f"{n_loops} per-item rendering loops found in node render methods")
     return {"obligations": obs, "samples": [], "trusted": [], "functions": [], "assumptions": ["macros called in a loop inherit the iteration carry through context.copy(carry_loop_iterations=True) (contract of copy)"]}
 
@@ -2316,6 +2422,40 @@ def c14_twin(repo_root, tier):
     tw = run_twin(repo_root, tier)
     obs = [o for o in tw["obligations"] if o["oid"].endswith("/twin") and (".loaders." in o["oid"] or "liquid2.loader:" in o["oid"] or "_build_block_stacks" in o["oid"]
                                                                          or "get_template" in o["oid"] or ".tags.include_tag" in o["oid"] or ".tags.render_tag" in o["oid"] or ".tags.extends_tag" in o["oid"])]
+    return {"obligations": obs, "samples": [], "trusted": [], "functions": [], "assumptions": []}
+
+
+@register("C20")
+def c20_single_quote_step(repo_root, tier):
+    """`\\'` is an escape of single-quoted text only. The pre-step that rewrites it (`.replace("\\\\'", "'")`) is applied where the
+    text is known to be single-quoted - under `is_token_type(tok, TokenType.SINGLE_QUOTE_STRING)` or on the not-double-quote
+    branch of a test of the quote character - never to double-quoted text, where `\\\\` followed by `'` is a backslash and a quote.
+    Also: an output statement is never blank (a whitespace string literal written as `{{ ' ' }}` is output, not layout)."""
+    repo = Repo(repo_root)
+    obs = []
+    n = 0
+    for m, qual, cls, fn, parent in _all_functions(repo):
+        for c in _calls(fn):
+            if not (isinstance(c.func, ast.Attribute) and c.func.attr == "replace" and len(c.args) == 2 and all(isinstance(a, ast.Constant) for a in c.args)
+                    and c.args[0].value == "\\'" and c.args[1].value == "'" and any(x is c for x in own_nodes(fn))):
+                continue
+            n += 1
+            ok = False
+            for g in own_nodes(fn):
+                if not isinstance(g, ast.If):
+                    continue
+                t = ast.unparse(g.test)
+                in_body = any(x is c for st in g.body for x in ast.walk(st))
+                in_else = any(x is c for st in g.orelse for x in ast.walk(st))
+                if in_body and ("SINGLE_QUOTE" in t or t in ("quote == \"'\"", "quote != '\"'")):
+                    ok = True
+                if in_else and t in ("quote == '\"'",) and not (len(g.orelse) == 1 and isinstance(g.orelse[0], ast.If)):
+                    ok = True
+            _ob(obs, f"{m.name}:{qual}/site.single-quote-step-on-single-quoted-text@{_ordinal(fn, c)}", ok,
+                "the backslash-quote pre-step is applied to single-quoted text only" if ok
+                else "`.replace(\"\\\\'\", \"'\")` is applied to text that may be double-quoted: `\\\\'` there is an escaped backslash followed by a quote, and the rewrite leaves an invalid escape")
+    _ob(obs, "liquid2/site.single-quote-steps.count", n >= 6, f"{n} backslash-quote pre-steps")
+    obs += [o for o in c18_sites(repo_root, tier)["obligations"] if "blank-sound" in o["oid"] and ("OutputNode" in o["oid"] or "EchoNode" in o["oid"])]
     return {"obligations": obs, "samples": [], "trusted": [], "functions": [], "assumptions": []}
 
 
@@ -2471,6 +2611,24 @@ def c16_optional_lookups(repo_root, tier):
                 "the Undefined is made where a name / argument is missing, not depending on an evaluated value" if not bad
                 else f"an Undefined is constructed depending on {bad[0]}: a variable that exists with value nil would fail a strict render")
     _ob(obs, "liquid2/site.undefined-constructors.count", n_ctor >= 12, f"{n_ctor} Undefined construction sites outside liquid2.undefined")
+    # a strict failure is never swallowed: no handler in the package catches a class wide enough to include UndefinedError
+    # (LiquidError, UndefinedError, Exception, BaseException, bare except) without raising again
+    n_broad = 0
+    for m, qual, cls, fn, parent in _all_functions(repo):
+        for t in own_nodes(fn):
+            if not isinstance(t, ast.Try):
+                continue
+            for h in t.handlers:
+                names = ast.unparse(h.type) if h.type is not None else "<bare except>"
+                parts = [p.strip(" ()") for p in names.split(",")]
+                if not any(p in ("LiquidError", "UndefinedError", "Exception", "BaseException", "<bare except>") for p in parts):
+                    continue
+                n_broad += 1
+                reraises = any(isinstance(x, ast.Raise) for st in h.body for x in ast.walk(st))
+                _ob(obs, f"{m.name}:{qual}/site.undefined-error-not-swallowed@{_ordinal(fn, t, ast.Try)}", reraises,
+                    f"`except {names}` raises again" if reraises
+                    else f"`except {names}` ends without raising: an UndefinedError raised under a strict policy inside the try is turned into a value, and the strict render succeeds with different output")
+    _ob(obs, "liquid2/site.broad-handlers.count", n_broad >= 3, f"{n_broad} handlers wide enough to catch UndefinedError")
     _ob(obs, "liquid2/site.optional-lookups.count", n_sites >= 4, f"{n_sites} optional context lookups found")
     # strict failures are the same on both paths: twin obligations of every evaluate / render pair
     from .twin import run_twin
